@@ -148,7 +148,7 @@ Definition case_trace (c : ccase) (md : omode) (callopts : bool) : trace :=
   let rdn := nonempty (k_rd c) in
   agent_run (case_tn c callopts) (case_tns c callopts) (fun n => mem_str n (k_rd c)) rdn
             (case_modifier c)
-            (fun cl => match kind_lookup (case_tdefs c callopts) (c_name cl) with Some _ => true | None => false end)
+            (fun _ => true)   (* every call of a round has tool callbacks - since /repo db1b29b also one answered by the UnknownToolsHandler *)
             (if k_default_checker c then default_checker else exact_checker)
             (match md with MGenerate => Generate | MStream => Stream end)
             (call_max_steps (k_max_step c) (if callopts then k_runtime_max c else 0%nat) rdn)
@@ -160,7 +160,7 @@ Definition case_engine_trace (c : ccase) (md : omode) (callopts : bool) : option
   let rdn := nonempty (k_rd c) in
   engine_trace (case_tn c callopts) (case_tns c callopts) (fun n => mem_str n (k_rd c)) rdn
             (case_modifier c)
-            (fun cl => match kind_lookup (case_tdefs c callopts) (c_name cl) with Some _ => true | None => false end)
+            (fun _ => true)   (* every call of a round has tool callbacks - since /repo db1b29b also one answered by the UnknownToolsHandler *)
             (if k_default_checker c then default_checker else exact_checker)
             (match md with MGenerate => Generate | MStream => Stream end)
             (match (if callopts then k_runtime_max c else 0) with 0 => k_max_step c | r => r end)
